@@ -15,10 +15,12 @@ import (
 var codecRepoInstr = map[string]instrument.Options{
 	".":                    {MapOrder: true, Globals: true},
 	"internal/importgraph": {MapOrder: true},
-	"iohelp":               {MapOrder: true, Alloc: true, Step: true, Globals: true},
+	"iohelp":               {MapOrder: true, Alloc: true, Step: true, Globals: true, Sync: true},
 }
 
-var genInstr = instrument.Options{MapOrder: true, Alloc: true, Step: true}
+// Sync: sync.Pool (none today) is replaced by the simulator's deterministic free list, so
+// that what a pooled object holds never depends on the garbage collector.
+var genInstr = instrument.Options{MapOrder: true, Alloc: true, Step: true, Sync: true}
 
 // CheckCodec runs a codec property (C01..C09): per seed, build the population with the
 // real generator from the working tree, then run the simulation nodes.
